@@ -139,7 +139,13 @@ pub fn run(sim: &Sim, prop: &str, tier: Tier) -> Outcome {
     };
     let n_events = 1 + if sim.chance(85) { sim.draw(max_events.min(12)) } else { sim.draw(max_events) };
     let sizes = match (tier, sim.draw(40)) {
-        (Tier::Quick, 39) => SizeCfg { large_pct: 20, huge_pct: 0 },
+        (Tier::Quick, 39) => {
+            if sim.chance(4) {
+                SizeCfg { large_pct: 10, huge_pct: 30 }
+            } else {
+                SizeCfg { large_pct: 20, huge_pct: 0 }
+            }
+        }
         (Tier::Thorough, 38 | 39) => SizeCfg { large_pct: 15, huge_pct: 8 },
         (Tier::Thorough, 36 | 37) => SizeCfg { large_pct: 25, huge_pct: 0 },
         _ => SizeCfg { large_pct: 0, huge_pct: 0 },
